@@ -28,6 +28,10 @@ Grammar
      | {'t': 'custom', 'form': 'str'|'dict'|'evolve', 'name': ..., 'tag': ...,
         'pool': [T, ...]}     (evolve only: placeholder-free values; pool[0] is
                                the initial value)
+     | {'t': 'ref', 'path': [token, ...], 'ctor': 'reference'|'ValueReference'}
+                              (a derived value, pg.hyper.reference: stands for
+                               the value at `path`, searched from the container
+                               that holds it up to the root; see `resolve_refs`)
      A dict may carry 'specs': {key: SPEC} and a list 'elem': SPEC: the container
      is then built with a value spec (pg.typing.Dict / pg.typing.List) to which
      the placeholders below it are bound.  An evolve placeholder may carry
@@ -204,6 +208,16 @@ def tcustom(form='str', name=None, tag=None, pool=None, transform=None,
   return out
 
 
+def tref(path, ctor='reference'):
+  """A value reference; `path`: tokens ('k', key) | ('i', index)."""
+  return {'t': 'ref', 'path': [list(t) for t in path], 'ctor': ctor}
+
+
+def ref_path(T):
+  """The reference path of a 'ref' description in KeyPath syntax."""
+  return G.render_id([tuple(t) for t in T['path']])
+
+
 def children(T):
   """(path token, child) of a container description."""
   t = T['t']
@@ -292,6 +306,10 @@ def build(T, plain_root=False, dynamic=False):
     return cls(**{k: build(c, dynamic=dynamic) for k, c in T['fields']})
   if t == 'float':
     return pg.floatv(T['lo'], T['hi'], name=T['name'], hints=T['tag'])
+  if t == 'ref':
+    if T['ctor'] == 'reference':
+      return pg.hyper.reference(ref_path(T))
+    return pg.hyper.ValueReference(reference_paths=[ref_path(T)])
   if t == 'custom':
     if T['form'] == 'evolve':
       return pg.evolve(build(T['pool'][0]),
@@ -392,12 +410,14 @@ def ref_decode(T, W, flat):
   rest = list(it)
   if rest:
     raise DecodeError(f'unused decisions {rest!r}')
+  if has_ref(out):
+    out = resolve_refs(out)
   return out
 
 
 def _dec(T, W, it):
   t = T['t']
-  if t == 'const':
+  if t == 'const' or t == 'ref':
     return T
   if t == 'dict':
     return dict(T, items=[[k, _dec(c, W, it)] for k, c in T['items']])
@@ -518,6 +538,9 @@ def canon_desc(T):
     items = {k: canon_desc(c) for k, c in T['fields']}
     items.update(UNLISTED.get(T['cls'], {}))
     return ('obj', T['cls'], tuple(sorted(items.items())))
+  if t == 'ref':
+    return ('obj', 'ValueReference', (('reference_paths', ('list', (
+        _leaf(pg.KeyPath.parse(ref_path(T))),))),))
   base = [('name', _leaf(T['name'])), ('hints', _leaf(T['tag']))]
   if t == 'float':
     return ('ph', 'float', tuple(sorted(base + [
@@ -619,6 +642,8 @@ def eq_key(c):
 
 def may_overlap(A, B, W):
   """Over-approximation: can A and B stand for `==`-equal values?"""
+  if A['t'] == 'ref' or B['t'] == 'ref':
+    return True                      # a reference stands for any value
   a_ph = A['t'] in PLACEHOLDERS and keep(W, A)
   b_ph = B['t'] in PLACEHOLDERS and keep(W, B)
   if b_ph and not a_ph:
@@ -708,6 +733,8 @@ def show(T):
   t = T['t']
   if t == 'const':
     return repr(T['v'])
+  if t == 'ref':
+    return f"{T['ctor']}({ref_path(T)!r})"
   if t == 'dict':
     sp = T.get('specs') or {}
     return '{' + ', '.join(
@@ -1691,3 +1718,248 @@ def from_space(sp, rng, tags=False, dup=0.0, evolve=0.0):
   st = State(rng, dup=dup, tags=tags, evolve=evolve)
   T = render_space(sp, st, 0)
   return T, st
+
+
+# --------------------------------------------------------------------------
+# Value references (derived values): pg.hyper.reference / ValueReference.
+#
+# Documented meaning (hyper/derived.py): the reference path is a relative path
+# "searched from current node to root": the nearest enclosing container in
+# which the path EXISTS is the scope, and decoding replaces the reference by
+# (a copy of) the value found there — whatever that value is (None, 0, '',
+# False and empty containers are values like any other).
+# --------------------------------------------------------------------------
+
+def has_ref(T):
+  if T['t'] == 'ref':
+    return True
+  kids = T['cands'] if T['t'] == 'choice' else [c for _, c in children(T)]
+  return any(has_ref(c) for c in kids)
+
+
+def _follow(node, tokens, static=False):
+  """The node reached from the container description `node` by path tokens;
+  None when the path does not exist.  static=True (a TEMPLATE description):
+  'maybe' when the path enters a placeholder or a reference, whose decoded
+  value may or may not have the rest of the path."""
+  for n, tok in enumerate(tokens):
+    t = node['t']
+    if static and n and t in PLACEHOLDERS + ('ref',):
+      return 'maybe'
+    nxt = None
+    if t == 'dict' and tok[0] == 'k':
+      nxt = dict((k, c) for k, c in node['items']).get(tok[1])
+    elif t == 'obj' and tok[0] == 'k':
+      nxt = dict((k, c) for k, c in node['fields']).get(tok[1])
+      if nxt is None and tok[1] in CLASS_FIELDS[node['cls']]:
+        raise AssertionError('harness: reference to an unlisted object field')
+    elif t == 'list' and tok[0] == 'i' and 0 <= tok[1] < len(node['items']):
+      nxt = node['items'][tok[1]]
+    if nxt is None:
+      return None
+    node = nxt
+  return node
+
+
+def resolve_refs(D):
+  """The decoded description D with every reference replaced by the node its
+  path reaches (read before any reference is replaced)."""
+  def walk(node, anc):
+    t = node['t']
+    if t == 'ref':
+      for a in reversed(anc):
+        hit = _follow(a, node['path'])
+        if hit is not None:
+          if has_ref(hit):
+            raise DecodeError('reference to a value that holds references')
+          return hit
+      raise DecodeError(f'reference {ref_path(node)!r} cannot be resolved')
+    if t == 'dict':
+      return dict(node, items=[[k, walk(c, anc + [node])] for k, c in node['items']])
+    if t == 'list':
+      return dict(node, items=[walk(c, anc + [node]) for c in node['items']])
+    if t == 'obj':
+      return dict(node, fields=[[k, walk(c, anc + [node])] for k, c in node['fields']])
+    if t == 'choice':                 # a placeholder the filter left in place
+      return dict(node, cands=[walk(c, anc) for c in node['cands']])
+    return node
+  return walk(D, [])
+
+
+def ref_sites(T, W=ALL):
+  """[(ref node, [enclosing container descriptions], path tokens or None,
+  inside a left-out placeholder?)] of a TEMPLATE description; the path is
+  None for references inside candidates."""
+  out = []
+
+  def walk(node, anc, path, left_out):
+    t = node['t']
+    if t == 'ref':
+      out.append((node, anc, path, left_out))
+    elif t == 'choice':
+      for c in node['cands']:
+        walk(c, anc if node['k'] == 1 else anc + [None], None,
+             left_out or not keep(W, node))
+    else:
+      for tok, c in children(node):
+        walk(c, anc + [node], None if path is None else path + (tok,), left_out)
+  walk(T, [], (), False)
+  return out
+
+
+def refs_ok(T, W=ALL):
+  """Every reference of the template resolves, for every DNA and both on the
+  template and on the decoded value, to the same reference-free node: no
+  scope on the way up has the path only for some decisions, no reference
+  sits in a candidate of a multi-choice (the decoded list would be one more
+  scope) or of a placeholder that the filter leaves in place."""
+  for node, anc, _, left_out in ref_sites(T, W):
+    if left_out or node['path'] is None or None in anc:
+      return False
+    hit = None
+    for a in reversed(anc):
+      hit = _follow(a, node['path'], static=True)
+      if hit is not None:
+        break
+    if hit is None or hit == 'maybe' or has_ref(hit):
+      return False
+  return True
+
+
+def falsy_pool(st):
+  """Descriptions of values that are easily mistaken for 'nothing there',
+  pairwise `!=` (one kind of zero only), None first half of the time."""
+  rng = st.rng
+  pool = [const(rng.choice([0, 0, False, 0.0, -0.0])), const(''), tlist([]),
+          tdict([])]
+  rng.shuffle(pool)
+  pool.insert(0 if rng.random() < 0.5 else rng.randrange(len(pool) + 1), const(None))
+  return pool
+
+
+def referent(st):
+  """What a reference points to: a placeholder whose candidates include falsy
+  values, a falsy constant, or a container of the constant part."""
+  rng = st.rng
+  pool = falsy_pool(st)
+  r = rng.random()
+  if r < 0.6:
+    cands = pool[:rng.randint(1, 3)] + [
+        unique_const(st, simple=rng.random() < 0.7) for _ in range(rng.randint(0, 2))]
+    if len(cands) < 2:
+      cands.append(unique_const(st, True))
+    rng.shuffle(cands)
+    return oneof(cands, tag=_tag(st))
+  if r < 0.72:
+    cands = pool[:2] + [unique_const(st, True)]
+    rng.shuffle(cands)
+    distinct, srt = rng.choice(S.MODES)
+    return choice(2, cands, distinct, srt, tag=_tag(st))
+  if r < 0.86:
+    return pool[0]
+  if r < 0.91:
+    lo, hi = rng.choice([(0.0, 1.0), (-0.0, 0.0), (-1.0, 0.0)])
+    return tfloat(lo, hi, tag=_tag(st))
+  return tdict([['x', oneof(pool[:2], tag=_tag(st))], ['y', pool[2]]])
+
+
+def _ref_slot(st, slots):
+  slot = {'t': 'ref', 'path': None,
+          'ctor': st.rng.choice(['reference', 'reference', 'ValueReference'])}
+  slots.append(slot)
+  return slot
+
+
+def _ref_scope(st, depth, slots):
+  """A dict / list / Any2 with referents under key names that are used again
+  on other levels, reference slots (filled by `ref_template`), sub-scopes
+  and conditional sub-scopes."""
+  rng = st.rng
+
+  def entry():
+    r = rng.random()
+    if r < 0.4:
+      return referent(st)
+    if r < 0.75:
+      return _ref_slot(st, slots)
+    if r < 0.9 and depth < 2:
+      return _ref_scope(st, depth + 1, slots)
+    return unique_const(st, True)
+
+  shape = rng.choice(['dict'] * 6 + ['list', 'any2']) if depth else 'dict'
+  if shape == 'list':
+    items = [entry() for _ in range(rng.randint(2, 3))]
+    return tlist(items)
+  if shape == 'any2':
+    return tobj('Any2', [['x', entry()], ['y', entry()]])
+  items = []
+  for k, p in (('a', 0.8 if depth == 0 else 0.5), ('b', 0.3)):
+    if rng.random() < p:
+      items.append([k, referent(st)])
+  for k in ('r', 'q'):
+    if rng.random() < (0.75 if k == 'r' else 0.3):
+      items.append([k, _ref_slot(st, slots)])
+  if depth < 2 and rng.random() < (0.75 if depth == 0 else 0.4):
+    items.append([rng.choice(['s', 't']), _ref_scope(st, depth + 1, slots)])
+  if depth < 2 and rng.random() < 0.3:
+    cands = [unique_const(st, True), _ref_scope(st, depth + 1, slots)]
+    rng.shuffle(cands)
+    items.append(['c', oneof(cands, tag=_tag(st))])
+  if rng.random() < 0.3:
+    items.append(['u', unique_const(st, True)])
+  if len(items) < 2:
+    used = [k for k, _ in items]
+    items.append([[k for k in ('a', 'b') if k not in used][0], referent(st)])
+  rng.shuffle(items)
+  return tdict(items)
+
+
+def _addressable(node, max_len, prefix=()):
+  """[(path tokens, node)] below a container of the constant part."""
+  out = []
+  for tok, c in children(node):
+    out.append((prefix + (tok,), c))
+    if max_len > 1:
+      out.extend(_addressable(c, max_len - 1, prefix + (tok,)))
+  return out
+
+
+def ref_template(st):
+  """A template with value references: relative paths resolved in the holding
+  container, an enclosing one or from the root ('absolute'), the same key
+  name bound on several levels, references inside lists, objects and
+  candidates; referents evaluate to None, 0, '', False, empty containers for
+  some DNAs."""
+  rng = st.rng
+  st.used_singletons.update(['None', 'False'])
+  slots = []
+  T = _ref_scope(st, 0, slots)
+  if not slots:
+    T['items'].append(['r', _ref_slot(st, slots)])
+  sites = {id(node): anc for node, anc, _, _ in ref_sites(T)}
+  for slot in slots:
+    anc = sites[id(slot)]
+    options = []
+    if None not in anc:
+      for a in anc:
+        for tokens, node in _addressable(a, 2):
+          if not has_ref(node):
+            options.append(tokens)
+    rng.shuffle(options)
+    # prefer the names that are bound on several levels
+    options.sort(key=lambda p: (p[-1][1] not in ('a', 'b')) and rng.random() < 0.6)
+    done = False
+    for tokens in options[:8]:
+      slot['path'] = [list(t) for t in tokens]
+      hit = None
+      for a in reversed(anc):
+        hit = _follow(a, slot['path'], static=True)
+        if hit is not None:
+          break
+      if hit is not None and hit != 'maybe' and not has_ref(hit):
+        done = True
+        break
+    if not done:
+      slot.clear()
+      slot.update(unique_const(st, True))
+  return T
